@@ -188,6 +188,33 @@ impl Property for C17 {
         if !buf.iter().all(|b| *b == 0) {
             return Err("caller's buffer not zeroed after a successful import".into());
         }
+        // the same import from a buffer at every offset 0..=16 inside a larger 16-byte-aligned buffer (sub-slice
+        // of a caller's bigger buffer, a field after a u8, ...): the whole 32 bytes are wiped, nothing around
+        // them is touched, the key is the same
+        #[repr(align(16))]
+        struct Aligned([u8; 64]);
+        for off in 0..=16usize {
+            let mut big = Aligned([0xa5u8; 64]);
+            big.0[off..off + 32].copy_from_slice(&kc.bytes);
+            let r = guarded(|| {
+                if kc.ed {
+                    CombinedKey::ed25519_from_bytes(&mut big.0[off..off + 32])
+                } else {
+                    CombinedKey::secp256k1_from_bytes(&mut big.0[off..off + 32])
+                }
+            })
+            .map_err(|p| format!("import from a buffer at offset {off} panicked: {p}"))?;
+            let k2 = r.map_err(|e| format!("import from a buffer at offset {off} of an aligned buffer failed: {e:?}"))?;
+            if k2.encode() != kc.bytes {
+                return Err(format!("import from a buffer at offset {off}: another key"));
+            }
+            if let Some(i) = big.0[off..off + 32].iter().position(|b| *b != 0) {
+                return Err(format!("caller's buffer (starting {off} bytes past a 16-byte boundary) not wiped after a successful import: byte {i} is left"));
+            }
+            if big.0[..off].iter().chain(big.0[off + 32..].iter()).any(|b| *b != 0xa5) {
+                return Err(format!("import from a buffer at offset {off} wrote outside the 32 bytes"));
+            }
+        }
         let secret = arr(&kc.bytes);
         let (scheme, want_pk) = if kc.ed {
             (Scheme::Ed, crypto::ed_pk_from_seed(&secret).to_vec())
